@@ -5,7 +5,7 @@
      DirectoryTreeStructureSignatureTask::inputsAvailable -> [struct_toks]
    Signatures are kept as TOKEN TREES: one token per argument the C++ feeds to hash_combine, in order; a nested
    signature is a sub-list.  The hash itself is a Section variable ([sig]).  Definitions only (no proofs). *)
-From LLB Require Import Base.Bytes Base.LE Codec.Codec Codec.FileObs.
+From LLB Require Import Base.Bytes Base.LE Codec.Codec Codec.FileObs Path.PathPrefix.
 Local Open Scope N_scope.
 
 (* ------------------------------------------------------------------ what is on disk *)
@@ -37,28 +37,36 @@ Definition path_append (p n : bytes) : bytes :=
   | _ => if ends_with_sep p then p ++ n else p ++ 47 :: n
   end.
 
-(* DirectoryContentsTask::getContents only: a symbolic link whose real_path is a STRING prefix of the directory's path
-   is left out ("so we don't get stuck in a loop") *)
-Definition dropped_link (p : bytes) (c : tree) : bool :=
+(* DirectoryContentsTask::getContents only: a symbolic link that resolves to an ancestor of the directory being
+   listed is left out ("so we don't get stuck in a loop").  [anc path resolved]: the ancestor test.
+   Repaired code: pathIsPrefixedByPath(path, resolvedPath) (whole components, Path/PathPrefix.v);
+   before the repair: path.startswith(resolvedPath) (a STRING prefix). *)
+Definition anc_repaired (p rp : bytes) : bool := pip p rp.
+Definition anc_unrepaired (p rp : bytes) : bool := is_prefix rp p.
+
+Definition dropped_link (anc : bytes -> bytes -> bool) (p : bytes) (c : tree) : bool :=
   match c with
-  | Link _ (Some rp) _ => is_prefix rp p
+  | Link _ (Some rp) _ => anc p rp
   | _ => false
   end.
 
 (* [skip]: true for the unfiltered listing (getContents), false for getFilteredContents (no such test there) *)
-Fixpoint observe (skip : bool) (p : bytes) (t : tree) : vtree :=
+Fixpoint observe_gen (anc : bytes -> bytes -> bool) (skip : bool) (p : bytes) (t : tree) : vtree :=
   match t with
   | Missing => VMissing
   | File i => VNode i []
-  | Link _ _ t' => observe skip p t'
+  | Link _ _ t' => observe_gen anc skip p t'
   | Dir i cs =>
     VNode i ((fix go (l : list (bytes * tree)) : list (bytes * vtree) :=
                 match l with
                 | [] => []
-                | (n, c) :: l' => if skip && dropped_link p c then go l'
-                                  else (n, observe skip (path_append p n) c) :: go l'
+                | (n, c) :: l' => if skip && dropped_link anc p c then go l'
+                                  else (n, observe_gen anc skip (path_append p n) c) :: go l'
                 end) cs)
   end.
+
+Definition observe := observe_gen anc_repaired.
+Definition observe_unrepaired := observe_gen anc_unrepaired.
 
 (* ------------------------------------------------------------------ ordering of a listing *)
 
@@ -232,17 +240,21 @@ Fixpoint tree_toks (filt : bool) (p : bytes) (s : stree) : list tok :=
                  end]) cs
   end.
 
-(* DirectoryTreeStructureSignatureTask::inputsAvailable: the mode of the directory itself when input 0 is a
-   DirectoryContents value, else its encoded bytes; per child the file name, the mode of an ExistingInput (else the
-   encoded bytes), the nested signature or the nil constant *)
-Definition struct_dir_tok (filt : bool) (s : stree) : tok :=
+(* DirectoryTreeStructureSignatureTask::inputsAvailable: the file type of the directory itself when input 0 is a
+   DirectoryContents value, else its encoded bytes; per child the file name, the file type of an ExistingInput (else
+   the encoded bytes), the nested signature or the nil constant.
+   [mk]: what is kept of a mode.  Repaired code: mode & S_IFMT (0170000); before the repair: the whole mode. *)
+Definition s_ifmt : N := 61440.
+Definition type_bits (m : N) : N := N.land m s_ifmt.
+
+Definition struct_dir_tok (mk : N -> N) (filt : bool) (s : stree) : tok :=
   match s with
-  | SNode ni _ _ => if filt then TBytes (dir_value_enc filt s) else TNum (fi_mode ni)
+  | SNode ni _ _ => if filt then TBytes (dir_value_enc filt s) else TNum (mk (fi_mode ni))
   | SMissing => TBytes (dir_value_enc filt s)
   end.
 
-Fixpoint struct_toks (filt : bool) (p : bytes) (s : stree) : list tok :=
-  TStr p :: struct_dir_tok filt s ::
+Fixpoint struct_toks_gen (mk : N -> N) (filt : bool) (p : bytes) (s : stree) : list tok :=
+  TStr p :: struct_dir_tok mk filt s ::
   match s with
   | SMissing => []
   | SNode _ si cs =>
@@ -250,14 +262,17 @@ Fixpoint struct_toks (filt : bool) (p : bytes) (s : stree) : list tok :=
     flat_map (fun nc : bytes * stree =>
                 let (n, c) := nc in
                 [TStr n;
-                 match c with SMissing => TBytes missing_input_enc | SNode ni _ _ => TNum (fi_mode ni) end;
+                 match c with SMissing => TBytes missing_input_enc | SNode ni _ _ => TNum (mk (fi_mode ni)) end;
                  match c with
                  | SMissing => TNum nil_const
                  | SNode ni _ _ => if isdir ni
-                                   then TSub VDirectoryTreeStructureSignature (struct_toks filt (path_append p n) c)
+                                   then TSub VDirectoryTreeStructureSignature (struct_toks_gen mk filt (path_append p n) c)
                                    else TNum nil_const
                  end]) cs
   end.
+
+Definition struct_toks := struct_toks_gen type_bits.
+Definition struct_toks_unrepaired := struct_toks_gen (fun m => m).
 
 (* ------------------------------------------------------------------ the hash *)
 
@@ -325,15 +340,15 @@ Fixpoint eff (s : stree) : vtree :=
   | SNode ni _ cs => VNode ni (map (fun nc : bytes * stree => (fst nc, eff (snd nc))) cs)
   end.
 
-(* names and modes only *)
+(* names and file types only *)
 Inductive shape :=
 | ShMissing
-| ShNode (mode : N) (cs : list (bytes * shape)).
+| ShNode (ty : N) (cs : list (bytes * shape)).
 
 Fixpoint shape_of (v : vtree) : shape :=
   match v with
   | VMissing => ShMissing
-  | VNode i cs => ShNode (fi_mode i) (map (fun nc : bytes * vtree => (fst nc, shape_of (snd nc))) cs)
+  | VNode i cs => ShNode (type_bits (fi_mode i)) (map (fun nc : bytes * vtree => (fst nc, shape_of (snd nc))) cs)
   end.
 
 Definition name_ok (n : bytes) : Prop := n <> [] /\ nul_free n = true /\ forallb (fun b => negb (N.eqb b 47)) n = true.
@@ -388,9 +403,9 @@ Inductive edit1 : vtree -> vtree -> Prop :=
       (* retype (file <-> directory <-> missing), or any edit beneath the child: see E_deep for the latter spelled out *)
 | E_deep i l1 l2 n c c' : edit1 c c' -> edit1 (VNode i (l1 ++ (n, c) :: l2)) (VNode i (l1 ++ (n, c') :: l2)).
 
-(* a single structural edit at any depth: entries added, removed, renamed, or the mode of an entry changed *)
+(* a single structural edit at any depth: entries added, removed, renamed, or the file type of an entry changed *)
 Inductive sedit1 : vtree -> vtree -> Prop :=
-| S_mode i j cs : fi_mode i <> fi_mode j -> sedit1 (VNode i cs) (VNode j cs)
+| S_type i j cs : type_bits (fi_mode i) <> type_bits (fi_mode j) -> sedit1 (VNode i cs) (VNode j cs)
 | S_add i j l1 l2 n c : ~ In n (names (l1 ++ l2)) -> sedit1 (VNode i (l1 ++ l2)) (VNode j (l1 ++ (n, c) :: l2))
 | S_remove i j l1 l2 n c : ~ In n (names (l1 ++ l2)) -> sedit1 (VNode i (l1 ++ (n, c) :: l2)) (VNode j (l1 ++ l2))
 | S_rename i j l1 l2 m1 m2 n n' c : l1 ++ l2 = m1 ++ m2 -> ~ In n' (names (l1 ++ (n, c) :: l2)) ->
